@@ -56,6 +56,15 @@ type Report struct {
 	Stubbed       []string       // functions replaced by harness stubs
 	Complete      bool           // work list exhausted within limits
 	MaxDepth      int
+	Cross         *CrossCheck // second exploration with another solver (thorough tiers)
+}
+
+type CrossCheck struct {
+	Solver     string `json:"solver"`
+	Paths      int    `json:"paths"`
+	Discharged int    `json:"discharged_unsat"`
+	Queries    int    `json:"queries"`
+	Agree      bool   `json:"agree"`
 }
 
 // Explore runs harness fn to exhaustion (within opt limits).
